@@ -18,7 +18,8 @@ THEOREMS = ["GitAi.Sys.no_invention", "GitAi.Sys.ghost_only_from_agent_edit", "G
             "GitAi.Sys.witness_path_checkout_loses_line_removed_after_staging"]
 # findings the line-identity model cannot see (token level / commit coordinates): runs in which the content oracle
 # reports one of them are not held against the model
-EXPLAINED = ("reconstruction-keeps-ai-on-line-rewritten-by-person", "line-added-by-commit-was-modified-again-unstaged")
+TOKEN_PAIR_SIG = "token-pairing-with-deleted-line-of-same-hunk"
+EXPLAINED = ("reconstruction-keeps-ai-on-line-rewritten-by-person", "line-added-by-commit-was-modified-again-unstaged", TOKEN_PAIR_SIG)
 SESS = ["s1", "s2"]
 HASH2S = {S.hash_of(s): s for s in SESS}
 
@@ -44,6 +45,7 @@ class Walk:
         self.human_reindent = set()  # files in which a person re-indented lines (whitespace only)
         self.recon_reindent = set()  # ... and that then went through an attribution reconstruction
         self.recon_taint = set()    # ... and that then went through an attribution reconstruction
+        self.recon_gone = set()     # (path, session): a line the session wrote into path was gone when a reconstruction ran
         self.ai_lines = {}          # path -> session -> texts (normalised) the session wrote into that file
         self.obs = []               # what the oracle saw at every check (for correspondence:discard-e2e)
         self.state = None           # (head, stash depth) after the last git command
@@ -154,9 +156,17 @@ class Walk:
         h1, n1, d1 = self.state = self.git_state()
         self.log(op="git", args=list(args), rc=rc, head0=h0, head1=h1, nstash0=n0, nstash1=n1, depth0=d0, depth1=d1,
                  files={p: self.read_lines(p) for p in self.files() if self.r.exists(p)})
+        if rc == 0 and args and args[0] == "revert" and h0 != h1:
+            # a revert commit puts the previous text of the lines back: an in-place rewrite nobody typed
+            rcn, names, _ = self.r.plain_git("diff", "--name-only", "-z", h0, h1)
+            self.human_inplace |= {n for n in names.split("\0") if n}
         if rc == 0 and any(tuple(args[:len(k)]) == k for k in self.RECON):
             self.recon_taint |= self.human_inplace
             self.recon_reindent |= self.human_reindent
+            for q in list(self.ai_lines):
+                for s_ in SESS:
+                    if self.gone_lines(q, q, s_):
+                        self.recon_gone.add((q, s_))
         return rc
 
     def op_commit(self):
@@ -449,13 +459,54 @@ class Walk:
         mine = set()
         for q in (p, base, p + ".moved"):
             mine |= self.ai_lines.get(q, {}).get(s, set())
-        return any(t not in now for t in mine)
+        if any(t not in now for t in mine):
+            return True
+        # the note of an OLDER commit is inspected while the working tree (a later reset --hard / checkout) holds the
+        # session's original line again: the line is gone in the content of the commit the note speaks of
+        sha = getattr(self, "_inspected_sha", None)
+        at = self.r.file_at(sha, p) if sha else None
+        if at is None:
+            return False
+        then = {norm(l) for l in at.split("\n")}
+        return any(t not in then for t in mine)
+
+    def gone_lines(self, p, base, s):
+        """normalised texts session `s` wrote into this file that are no longer in it"""
+        now = {norm(l) for l in self.read_lines(p)} if self.r.exists(p) else set()
+        mine = set()
+        for q in (p, base, p + ".moved"):
+            mine |= self.ai_lines.get(q, {}).get(s, set())
+        return {t for t in mine if t not in now}
+
+    @staticmethod
+    def lead(t):
+        """leading word token of a line (indentation aside): `ai`, `hum`, `line`"""
+        import re
+        m = re.match(r"\s*(\w+)", t)
+        return m.group(1) if m else None
+
+    def pairs_with_gone_line(self, p, base, s, text):
+        """known finding token-pairing-with-deleted-line-of-same-hunk: session s wrote a line into this file that is gone,
+        that line starts with the same word token as the credited line (the token-level diff of a changed hunk pairs the
+        leading tokens of a deleted line with a different line of the hunk), the credited text is not s's, and a reconstruction
+        (RECON) ran while s's line was already gone"""
+        if norm(text) in self.wrote[s] or self.lead(text) is None:
+            return False
+        if not ((p, s) in self.recon_gone or (base, s) in self.recon_gone):
+            return False
+        nt = norm(text)
+        # a DIFFERENT line of s (not an earlier / later version of the credited line itself: that is the in-place family)
+        return any(self.lead(t) == self.lead(text) and not t.startswith(nt) and not nt.startswith(t)
+                   for t in self.gone_lines(p, base, s))
 
     def fail(self, kind, where, sha, p, ln, text, s):
         base = p[:-6] if p.endswith(".moved") else p
+        self._inspected_sha = sha
         if text is not None and (text.lstrip().startswith("hum-") or self.is_tweak_of_own(text, s)) and \
                 (p in self.recon_taint or base in self.recon_taint) and self.session_line_gone(p, base, s):
             sig = "reconstruction-keeps-ai-on-line-rewritten-by-person"
+        elif text is not None and self.pairs_with_gone_line(p, base, s, text):
+            sig = TOKEN_PAIR_SIG
         elif (kind == "note" and ln in self.overlap.get(sha, {}).get(p, set())) or \
                 (kind == "blame" and any(p in ov or base in ov for ov in self.overlap.values())):
             sig = "line-added-by-commit-was-modified-again-unstaged"
